@@ -1,8 +1,10 @@
 (* C03/C04 — reference semantics, independent of where the pool places anything.
 
-   A reservation made by reserve() starts a *family* with its own array of bytes; a slice is
-   a window (logical offset, size) into the family of its parent.  Writing through a handle
-   updates the family's array, reading a handle returns its window.  resize / shrinkToFit /
+   A reservation made by reserve() starts a *family* (numbered by a counter, so that handle ids
+   may be reused after a release) with its own array of bytes; a slice is a window (logical
+   offset, size) into the family of its parent.  Writing through a handle
+   updates the family's array, reading a handle returns its window; a byte that was never
+   written is None (a fresh reservation holds whatever malloc left there).  resize / shrinkToFit /
    setAlignment do not appear here at all: they must not change what any handle reads.
 
    The second part states what C04 requires of the accounting: the number of byte positions
@@ -11,13 +13,20 @@ From Coq Require Import List ZArith Bool Lia.
 Import ListNotations.
 Local Open Scope Z_scope.
 
-Record sres := mkSres { s_id : Z; s_fam : Z; s_loff : Z; s_sz : Z }.
+Record sres := mkSres {
+  s_id : Z;        (* handle *)
+  s_fam : Z;       (* family *)
+  s_loff : Z;      (* logical offset inside the family *)
+  s_sz : Z;        (* size *)
+  s_root : bool    (* made by reserve() (true) or by slice() (false) *)
+}.
 
 Record sstate := mkS {
   s_live : list sres;          (* live handles *)
-  s_mem : Z -> Z -> Z          (* family -> logical position -> byte *)
+  s_mem : Z -> Z -> option Z;  (* family -> logical position -> byte last written, if any *)
+  s_next : Z                   (* next family number *)
 }.
-Definition sstate0 : sstate := mkS [] (fun _ _ => 0).
+Definition sstate0 : sstate := mkS [] (fun _ _ => None) 0.
 
 Fixpoint s_find (id : Z) (l : list sres) : option sres :=
   match l with
@@ -31,13 +40,13 @@ Fixpoint s_remove (id : Z) (l : list sres) : list sres :=
   | x :: tl => if s_id x =? id then tl else x :: s_remove id tl
   end.
 
-Fixpoint s_write (m : Z -> Z) (pos : Z) (data : list Z) : Z -> Z :=
+Fixpoint s_write (m : Z -> option Z) (pos : Z) (data : list Z) : Z -> option Z :=
   match data with
   | [] => m
-  | x :: tl => s_write (fun p => if p =? pos then x else m p) (pos + 1) tl
+  | x :: tl => s_write (fun p => if p =? pos then Some x else m p) (pos + 1) tl
   end.
 
-Fixpoint s_readn (m : Z -> Z) (pos : Z) (n : nat) : list Z :=
+Fixpoint s_readn (m : Z -> option Z) (pos : Z) (n : nat) : list (option Z) :=
   match n with
   | O => []
   | S n' => m pos :: s_readn m (pos + 1) n'
@@ -57,7 +66,7 @@ Definition s_step (s : sstate) (o : sop) : sstate :=
       | Some _ => s
       | None =>
           if entries <=? 0 then s
-          else mkS (mkSres id id 0 entries :: s_live s) (s_mem s)
+          else mkS (mkSres id (s_next s) 0 entries true :: s_live s) (s_mem s) (s_next s + 1)
       end
   | SSlice id parent off cnt =>
       match s_find id (s_live s), s_find parent (s_live s) with
@@ -67,9 +76,9 @@ Definition s_step (s : sstate) (o : sop) : sstate :=
           let bytes := if cnt =? -1 then s_sz m - off else cnt in
           (* the requests that memory::slice must refuse *)
           if (bytes <? 0) || negb (off + cnt <=? s_sz m) || (off <? 0) then s
-          else mkS (mkSres id (s_fam m) (s_loff m + off) bytes :: s_live s) (s_mem s)
+          else mkS (mkSres id (s_fam m) (s_loff m + off) bytes false :: s_live s) (s_mem s) (s_next s)
       end
-  | SFree id => mkS (s_remove id (s_live s)) (s_mem s)
+  | SFree id => mkS (s_remove id (s_live s)) (s_mem s) (s_next s)
   | SWrite id off data =>
       match s_find id (s_live s) with
       | None => s
@@ -78,6 +87,7 @@ Definition s_step (s : sstate) (o : sop) : sstate :=
           else mkS (s_live s)
                    (fun f => if f =? s_fam m then s_write (s_mem s f) (s_loff m + off) data
                              else s_mem s f)
+                   (s_next s)
       end
   | SOther => s
   end.
@@ -85,7 +95,7 @@ Definition s_step (s : sstate) (o : sop) : sstate :=
 Definition s_run (s : sstate) (ops : list sop) : sstate := fold_left s_step ops s.
 
 (* what handle id must read back *)
-Definition s_read (s : sstate) (id : Z) : option (list Z) :=
+Definition s_read (s : sstate) (id : Z) : option (list (option Z)) :=
   match s_find id (s_live s) with
   | None => None
   | Some m => Some (s_readn (s_mem s (s_fam m)) (s_loff m) (Z.to_nat (s_sz m)))
